@@ -12,8 +12,12 @@
 (*     is the RFC's, up to parentheses and chains of && / ||;              *)
 (*   - a text outside the grammar, or invalid, is rejected;                *)
 (*   - the declared don't-care texts are not constrained.                  *)
+(* T16 (refinement): on every accepted text, the implementation-shaped     *)
+(* evaluator (Evaluator.tla) applied to the query the implementation-      *)
+(* shaped parser built returns the node list Eval!Find assigns to the      *)
+(* RFC's parse of the text, on each of six discriminating documents.       *)
 (***************************************************************************)
-EXTENDS Parser, Canon, Json
+EXTENDS Parser, Canon, Evaluator, Json
 
 CONSTANTS UnitSet,        \* which family of units
           MaxUnits,
@@ -63,10 +67,30 @@ Rfc  == CompileVerdict(text, Builtins, Lo, Hi)
 T15_NoCrash == Impl.ok \/ Impl.kind \in {"syntax", "type", "name", "index", "lexer", "numbig"}
 T15_Accept  == Rfc.v = "accept" => (Impl.ok /\ NF(Impl.v) = NF(Parse(text, TRUE).v))
 T15_Reject  == Rfc.v = "reject" => ~Impl.ok
-\* a sharper statement on the kind of rejection: what the grammar rejects is never reported as a typing problem
-\* of a function the text does not even contain ... (not claimed: the code may meet a typing error first)
+
+(* ---- T16: the implementation-shaped evaluator (Evaluator.tla) refines Eval.tla ------------------------- *)
+\* on the query the implementation-shaped parser built vs the RFC's parse of the same text, over documents
+\* that tell the units' names and literals apart (object / array / scalar roots, every kind as a child)
+nA == <<97>>  nB == <<98>>  nC == <<99>>
+N1 == Num(1, 0)  N0 == Num(0, 0)
+MCDocSeq == <<
+    Obj(<<Mem(nA, N1), Mem(nB, Arr(<<N1, Obj(<<Mem(nA, Str(nA))>>)>>)), Mem(nC, Null)>>),
+    Arr(<<N1, Arr(<<N0, N1>>), Obj(<<Mem(nA, Arr(<<N1>>))>>), Str(nA), Bool(TRUE)>>),
+    Obj(<<Mem(nA, Obj(<<Mem(nA, N1), Mem(nB, Str(nC))>>)), Mem(nB, Str(nB))>>),
+    Arr(<<Obj(<<Mem(nA, N1)>>), Obj(<<Mem(nA, N0), Mem(nB, N1)>>), Obj(<<Mem(nA, Str(nA))>>), Obj(<<Mem(nA, Bool(TRUE))>>),
+          Obj(<<Mem(nA, Null)>>), Obj(<<Mem(nA, Arr(<<N1>>))>>), N1, Str(nC), Arr(<<>>), Obj(<<>>)>>),
+    N1, Str(nA) >>
+MCDocs == {MCDocSeq[i] : i \in 1..Len(MCDocSeq)}
+T16 == (Impl.ok /\ Rfc.v = "accept") =>
+           \A d \in MCDocs : DcSegs(Impl.v, d, Builtins) \/ ImplFind(Impl.v, d, Builtins) = Find(Parse(text, TRUE).v, d, Builtins)
 
 \* export for the conformance run: the text and what the implementation-shaped model says
 Export == (n > ExportAllUpTo /\ ~Impl.ok /\ Impl.kind = "syntax") \/ PrintT("GEN " \o ToJson([q |-> text, ok |-> Impl.ok, kind |-> IF Impl.ok THEN "" ELSE Impl.kind,
-                                   rfc |-> Rfc.v, why |-> Rfc.why, ast |-> IF Impl.ok THEN Impl.v ELSE <<>>]))
+                                   rfc |-> Rfc.v, why |-> Rfc.why, ast |-> IF Impl.ok THEN Impl.v ELSE <<>>,
+                                   \* what the implementation-shaped evaluator returns on each document ("dc": not pinned)
+                                   res |-> IF Impl.ok /\ Rfc.v = "accept"
+                                           THEN [i \in 1..Len(MCDocSeq) |->
+                                                    IF DcSegs(Impl.v, MCDocSeq[i], Builtins) THEN <<"dc">>
+                                                    ELSE LET nl == ImplFind(Impl.v, MCDocSeq[i], Builtins) IN [k \in 1..Len(nl) |-> nl[k].loc]]
+                                           ELSE <<>>]))
 =============================================================================
